@@ -148,6 +148,19 @@ Inductive items_of (l : language) : nat -> list token -> list fdesc -> Prop :=
     items_of l (off + length a + length tail + 1) body ds1 ->
     items_of l (off + length a + length tail + 1 + length body + 1 + length post + 1) r ds2 ->
     items_of l off (a ++ tail ++ o :: body ++ c :: post ++ semi :: r) (ds1 ++ ds2)
+(* Java / C#: a statement that creates an object with a braced part right after the constructor call —
+   an anonymous class `Runnable r = new Runnable ( ) { void run ( ) { … } } ;` (the body holds items) or an object /
+   collection initialiser `var v = new Holder ( ) { A = 1 , B = 2 } ;` (the body is flat).  `Name (…)+ {` IS a header
+   shape; the languages' filter drops a header that follows the keyword `new`, so nothing is reported for it.
+   pre holds no parenthesis (as in io_init), post is an ordinary statement tail. *)
+| io_new off pre kn nm gs o body c post semi r ds1 ds2 :
+    (l = LJava \/ l = LCSharp) -> forallb plain pre = true ->
+    kw_is kn kw_new = true -> is_name nm = true -> groups gs ->
+    is_lbrace o = true -> is_rbrace c = true ->
+    (items_of l (off + length pre + 2 + length gs + 1) body ds1 \/ (forallb plain body = true /\ ds1 = [])) ->
+    inner post -> is_symbol semi semicolon = true ->
+    items_of l (off + length pre + 2 + length gs + 1 + length body + 1 + length post + 1) r ds2 ->
+    items_of l off (pre ++ kn :: nm :: gs ++ o :: body ++ c :: post ++ semi :: r) (ds1 ++ ds2)
 | io_func off pre hd nm_off hend_off o body c r ds1 ds2 :
     forallb (prefix_word l) pre = true -> fhead l hd nm_off hend_off ->
     is_lbrace o = true -> is_rbrace c = true ->
